@@ -13,6 +13,7 @@ import numpy as np
 
 from .. import env
 from ..harness import to_np
+from ..targets import PARAM_NAMES
 
 ID = "C04"
 LEVEL = "exploration"
@@ -179,7 +180,7 @@ def build(spec, xp, dtype_name):
         return T.ProbitTransform(lower=lo, upper=hi, xp=xp, eps=CLIP, dtype=dtype_name)
     if kind == "affine":
         return T.AffineTransform(xp=xp, dtype=dtype_name)
-    params = [f"p{j}" for j in range(d)]
+    params = [PARAM_NAMES[j] for j in range(d)]
     pb = {p: [float(lo[j]), float(hi[j])] for j, p in enumerate(params)}
     if kind == "composite":
         per = [p for p, t in zip(params, spec["types"]) if t == "periodic"]
@@ -417,7 +418,7 @@ def judge_flowprec(case, counters, viol):
     xp = env.xp_of(xpn)
     g = np.random.default_rng(case["seed"])
     d = int(g.integers(1, 3))
-    params = [f"p{j}" for j in range(d)]
+    params = [PARAM_NAMES[j] for j in range(d)]
     lo = g.uniform(-3, 0, d)
     hi = lo + g.uniform(2, 6, d)
     b2u = bool(g.random() < 0.6)
